@@ -413,6 +413,8 @@ def ev_Call(n, c):
             return list(ev(n.args[0], c))[ev(n.args[1], c)]
         if f == "cls_is":
             return type(ev(n.args[0], c)).__name__ == n.args[1].value
+        if f == "same_class":
+            return type(ev(n.args[0], c)) is type(ev(n.args[1], c))
         if f == "same":
             return canon(ev(n.args[0], c), c) is canon(ev(n.args[1], c), c)
         if f in reg["preds"]:
